@@ -260,6 +260,7 @@ fn corpus_case(args: &Args, file: &PathBuf, rng: &mut Rng, mutate: bool) -> Opti
         scheduler: true,
         path: Some(file.to_string_lossy().to_string()),
         origin: Some(if mutate { format!("mutant:{name}") } else { format!("corpus:{name}") }),
+        split: None,
     })
 }
 
